@@ -19,9 +19,13 @@ def load_tables():
             ('mulgrid', mulgrids.mulgrid_format_specification, fff.default_read_function)]
 
 
-def make_file(spec, rf, tmpdir):
+def make_file(spec, rf, tmpdir, name='scratch.txt'):
     import fixed_format_file as fff
-    return fff.fixed_format_file(os.path.join(tmpdir, 'scratch.txt'), 'w', spec, rf)
+    return fff.fixed_format_file(os.path.join(tmpdir, name), 'w', spec, rf)
+
+
+def same_list(a, b):
+    return len(a) == len(b) and all(same(x, y) for x, y in zip(a, b))
 
 
 def parse_spec(s):
@@ -140,11 +144,18 @@ def sweep(ctx, thorough=False, only=None):
     """only: optional set of (table, record) to restrict to.  Returns number of cases."""
     tmpdir = tempfile.mkdtemp(prefix='c02_')
     n = 0
-    dist = {'raised': 0, 'fits': 0, 'too_wide': 0, 'none': 0, 'printed_digits_checked': 0}
+    dist = {'raised': 0, 'fits': 0, 'too_wide': 0, 'none': 0, 'printed_digits_checked': 0, 'reparsed_after_caller_edit': 0, 'rewritten': 0}
     try:
         reals = real_lattice(ctx.rng, thorough)
-        for tname, table, rf in load_tables():
-            f = make_file(table, rf, tmpdir)
+        # all four file objects are alive side by side, created in a shuffled order, and the tables are
+        # visited in another shuffled order: the clauses must not depend on other objects or earlier calls
+        tabs = load_tables()
+        created = list(tabs); ctx.rng.shuffle(created)
+        files = {t[0]: make_file(t[1], t[2], tmpdir, 'scratch_%s.txt' % t[0]) for t in created}
+        visit = list(tabs); ctx.rng.shuffle(visit)
+        dist['creation_order'] = ','.join(t[0] for t in created); dist['visit_order'] = ','.join(t[0] for t in visit)
+        for tname, table, rf in visit:
+            f = files[tname]
             for rec, (names, specs) in table.items():
                 if only is not None and (tname, rec) not in only: continue
                 base = [neutral(s) for s in specs]
@@ -157,6 +168,7 @@ def sweep(ctx, thorough=False, only=None):
                         ctx.count((tname, rec, i, repr(v)), nontrivial=v is not None)
                         case = {'table': tname, 'record': rec, 'field': i, 'spec': spec, 'value': repr(v), 'values': [repr(x) for x in vals]}
                         if n % 9973 == 0: ctx.sample(case)
+                        given = list(vals)
                         try:
                             line = f.write_values_to_string(vals, rec)
                         except Exception as e:
@@ -171,11 +183,38 @@ def sweep(ctx, thorough=False, only=None):
                                 ctx.failure('field-lattice', classify(spec, v, 'raises-on-representable-value'), case, 'raised %s' % type(e).__name__, 'record written')
                             continue
                         if v is None: dist['none'] += 1
+                        if not same_list(vals, given):
+                            ctx.failure('field-lattice', 'write_values_to_string:mutates-caller-values', case, repr(vals), 'the value list left as given')
+                            vals = given
                         try:
                             got = f.parse_string(line + '\n', rec)
                         except Exception as e:
                             ctx.failure('field-lattice', classify(spec, v, 'parse-raises'), case, 'parse raised %s' % type(e).__name__, 'values')
                             continue
+                        if n % 3 == 0:
+                            # sequences on one object: the caller edits the list it was given (as t2data.trim_trailing_nones,
+                            # linevals.pop() ... do), then an identical line of the same type is parsed again; and the
+                            # same values are written again
+                            dist['reparsed_after_caller_edit'] += 1
+                            snap = list(got)
+                            try:
+                                again = f.parse_string(line + '\n', rec)
+                                del got[len(got) // 2:]
+                                if got: got[0] = '#edited by the caller#'
+                                del again[1:]
+                                third = f.parse_string(line + '\n', rec)
+                                if not same_list(third, snap):
+                                    ctx.failure('field-lattice', 'parse_string:result-depends-on-earlier-call', dict(case, line=line, sequence='parse; parse; caller edits both results; parse'),
+                                                repr(third), repr(snap))
+                            except Exception as e:
+                                ctx.failure('field-lattice', 'parse_string:result-depends-on-earlier-call', dict(case, line=line), 'raised %s' % type(e).__name__, repr(snap))
+                            got = snap
+                            if n % 15 == 0:
+                                dist['rewritten'] += 1
+                                try: line2 = f.write_values_to_string(list(given), rec)
+                                except Exception as e: line2 = 'raised %s' % type(e).__name__
+                                if line2 != line:
+                                    ctx.failure('field-lattice', 'write_values_to_string:result-depends-on-earlier-call', dict(case, line=line), repr(line2), repr(line))
                         bad = None
                         for j, s2 in enumerate(specs):
                             exp = expected_readback(s2, vals[j], None)
@@ -197,7 +236,7 @@ def sweep(ctx, thorough=False, only=None):
                             if not printed_digits_ok(text, v, got[i]):
                                 ctx.failure('field-lattice', classify(spec, v, 'real-not-to-printed-digits'), dict(case, line=line, wrong_field=i),
                                             '%r read as %r' % (text, got[i]), 'within half a unit of the last printed digit of %r' % (v,))
-            f.close()
+        for f in files.values(): f.close()
     finally:
         import shutil
         shutil.rmtree(tmpdir, ignore_errors=True)
@@ -219,6 +258,14 @@ def opener(t):
     if t == 't2incon': return lambda fn, mode: t2incons.t2incon_parser(fn, mode)
     if t == 'mulgrid': return lambda fn, mode: fff.fixed_format_file(fn, mode, mulgrids.mulgrid_format_specification)   # as mulgrid.read/write do
     raise KeyError(t)
+# the line helper the readers of the library apply before parse_string (line = padstring(infile.readline())),
+# under the name each module actually has bound
+pads = [(m.__name__, m.padstring) for m in (mulgrids, t2incons, t2data) if callable(getattr(m, 'padstring', None))]   # the modules whose readers call it
+def caller_edits(vals):
+    # what callers do to the list they were given: t2data.trim_trailing_nones, linevals.pop(), vals[k] = ...
+    while vals and vals[-1] is None: vals.pop()
+    if vals: vals[0] = '#edited by the caller#'
+    if len(vals) > 1: vals.pop()
 tmp = tempfile.mkdtemp(prefix='c02f_')
 out = []
 try:
@@ -231,15 +278,47 @@ try:
         stage = 'open-w'
         try:
             p = opener(f['table'])(fn, 'w')
-            stage = 'write'
-            for rec, vals in f['cases']: p.write_values(vals, rec)
-            stage = 'close-w'; p.close()
-            stage = 'open-r'; p = opener(f['table'])(fn, 'r')
-            stage = 'read'
-            got = [p.read_values(rec) for rec, vals in f['cases']]
-            rest = p.readline()
-            p.close()
-            out.append({'ok': True, 'got': got, 'rest': rest})
+            if 'cases' in f:
+                stage = 'write'
+                for rec, vals in f['cases']:
+                    given = list(vals)
+                    p.write_values(vals, rec); p.write_values(vals, rec)     # every record twice: consecutive identical lines
+                    if vals != given: raise AssertionError('write_values changed the caller\'s value list')
+                stage = 'close-w'; p.close()
+                stage = 'open-r'; p = opener(f['table'])(fn, 'r')
+                stage = 'read'
+                got, got2 = [], []
+                for rec, vals in f['cases']:
+                    g1 = p.read_values(rec); got.append(list(g1))
+                    caller_edits(g1)
+                    g2 = p.read_values(rec); got2.append(list(g2))
+                    caller_edits(g2)
+                rest = p.readline()
+                p.close()
+                stage = 'read-through-padstring'
+                padded = {}
+                p = opener(f['table'])(fn, 'r')
+                raw = [(p.readline(), p.readline())[0] for rec, vals in f['cases']]
+                for name, pad in pads:
+                    padded[name] = [p.parse_string(pad(line), rec) for line, (rec, vals) in zip(raw, f['cases'])]
+                p.close()
+                out.append({'ok': True, 'got': got, 'got2': got2, 'rest': rest, 'padded': padded})
+            else:
+                stage = 'write_value_line'
+                for rec, variable, prefill in f['vl']:
+                    given = dict(variable)
+                    p.write_value_line(variable, rec); p.write_value_line(variable, rec)
+                    if variable != given: raise AssertionError('write_value_line changed the caller\'s dictionary')
+                stage = 'close-w'; p.close()
+                stage = 'open-r'; p = opener(f['table'])(fn, 'r')
+                stage = 'read_value_line'
+                fresh, used = [], []
+                for rec, variable, prefill in f['vl']:
+                    d1 = {}; p.read_value_line(d1, rec); fresh.append(d1)
+                    d2 = dict(prefill); p.read_value_line(d2, rec); used.append(d2)
+                rest = p.readline()
+                p.close()
+                out.append({'ok': True, 'fresh': fresh, 'used': used, 'rest': rest})
         except Exception as e:
             out.append({'ok': False, 'stage': stage, 'exc': type(e).__name__, 'msg': str(e)[:200]})
     for h in held: h.close()
@@ -299,9 +378,47 @@ def file_cases(table, rng, thorough):
     return out
 
 
+def value_line_cases(table, rng, thorough):
+    """(record, variable dict, prefill dict, kind): records read through read_value_line / written through
+    write_value_line; 'zeros' gives every numeric name the value zero, 'mixed' boundary values with absent names"""
+    out = []
+    for rec, (names, specs) in table.items():
+        uniq = []
+        for nm in names:
+            if nm != '' and nm not in uniq: uniq.append(nm)
+        def choose(nm, kind):
+            pos = [j for j, x in enumerate(names) if x == nm and parse_spec(specs[j])[2] != 'x']
+            if not pos: return None, None
+            typ = parse_spec(specs[pos[0]])[2]
+            if any(parse_spec(specs[j])[2] != typ for j in pos): return None, None       # one name, several types: leave absent
+            if typ == 'd': cands, pre = ([0] if kind == 'zeros' else [0, 1, 7, -1]), 777
+            elif typ in 'ef': cands, pre = ([0.0] if kind == 'zeros' else [0.0, -0.0, 2.5, -1.5, 0.5]), 777.5
+            else: cands, pre = (['q'] if kind == 'zeros' else ['q', 'Z']), 'zzz'
+            cands = [v for v in cands if all(writable(specs[j], v) for j in pos)]
+            if not cands: return None, pre
+            return rng.choice(cands), pre
+        for kind in ['zeros', 'mixed'] + (['mixed'] * 2 if thorough else []):
+            variable, prefill = {}, {}
+            for nm in uniq:
+                v, pre = choose(nm, kind)
+                if pre is not None: prefill[nm] = pre
+                if v is not None and not (kind == 'mixed' and rng.random() < 0.25): variable[nm] = v
+            if variable: out.append((rec, variable, prefill, kind))
+    return out
+
+
+def record_wrong(specs, vals, got):
+    """index of the first field that does not read back its own value, or None"""
+    for j, s2 in enumerate(specs):
+        g = got[j] if j < len(got) else '<missing>'
+        if not check_field(expected_readback(s2, vals[j], None), g, s2): return j
+    return None
+
+
 def eval_file(tables, f, res):
     """failures of one file job: list of (key, case dict, observed, required)"""
     table = tables[f['table']]
+    if 'vl' in f: return eval_value_lines(table, f, res)
     ascii_only = all(is_ascii(v) for rec, vals in f['cases'] for v in vals)
     tag = 'ascii' if ascii_only else 'non-ascii-name'
     if not res.get('ok'):
@@ -314,16 +431,62 @@ def eval_file(tables, f, res):
     for k, (rec, vals) in enumerate(f['cases']):
         names, specs = table[rec]
         got = res['got'][k]
-        for j, s2 in enumerate(specs):
-            g = got[j] if j < len(got) else '<missing>'
-            if not check_field(expected_readback(s2, vals[j], None), g, s2):
-                own = isinstance(vals[j], str) and not is_ascii(vals[j])
-                what = 'own-field-wrong' if own else ('field-wrong' if ascii_only else 'neighbour-corrupted')
-                fails.append(('file-level:%s:%s' % (tag, what), {'record': rec, 'case': k, 'wrong_field': j, 'spec': s2},
-                              repr(g), 'read-back of %r' % (vals[j],)))
+        j = record_wrong(specs, vals, got)
+        if j is not None:
+            own = isinstance(vals[j], str) and not is_ascii(vals[j])
+            what = 'own-field-wrong' if own else ('field-wrong' if ascii_only else 'neighbour-corrupted')
+            fails.append(('file-level:%s:%s' % (tag, what), {'record': rec, 'case': k, 'wrong_field': j, 'spec': specs[j]},
+                          repr(got[j] if j < len(got) else '<missing>'), 'read-back of %r' % (vals[j],)))
+            continue
+        # the identical record that follows, read after the caller edited the first result
+        got2 = res['got2'][k]
+        j = record_wrong(specs, vals, got2)
+        if j is not None:
+            fails.append(('file-level:read_values:result-depends-on-earlier-call', {'record': rec, 'case': k, 'wrong_field': j, 'spec': specs[j]},
+                          repr(got2), 'read-back of %r (second of two identical records; the caller edited the first result)' % (vals,)))
+            continue
+        # the same line passed through the library's line helper as bound in each module, then parsed
+        for mod in sorted(res.get('padded', {})):
+            gp = res['padded'][mod][k]
+            j = record_wrong(specs, vals, gp)
+            if j is not None:
+                fails.append(('file-level:padstring-alters-record', {'record': rec, 'case': k, 'wrong_field': j, 'spec': specs[j], 'helper': mod + '.padstring'},
+                              repr(gp[j] if j < len(gp) else '<missing>'), 'read-back of %r from parse_string(%s.padstring(line))' % (vals[j], mod)))
                 break
     if res.get('rest') not in ('', None):
         fails.append(('file-level:%s:extra-text-in-file' % tag, {}, repr(res['rest'][:80]), 'end of file after the records'))
+    return fails
+
+
+def eval_value_lines(table, f, res):
+    if not res.get('ok'):
+        return [('file-level:value-line:raises-on-representable-value', {}, 'raised %s at %s: %s' % (res.get('exc'), res.get('stage'), res.get('msg')), 'value lines written and read back')]
+    fails = []
+    for k, (rec, variable, prefill) in enumerate(f['vl']):
+        names, specs = table[rec]
+        for which, d in (('fresh', res['fresh'][k]), ('used', res['used'][k])):
+            bad = None
+            for nm in dict.fromkeys(names):
+                pos = [j for j, x in enumerate(names) if x == nm and parse_spec(specs[j])[2] != 'x']
+                if nm == '' or not pos: continue
+                v = variable.get(nm)
+                if v is None:
+                    # absent: nothing is stored (an 's' field delivers its blanks); a used dictionary keeps what it had
+                    keep = prefill.get(nm) if which == 'used' else None
+                    ok = (nm not in d and keep is None) or (nm in d and (same(d[nm], keep) if keep is not None else False)) \
+                        or (nm in d and isinstance(d[nm], str) and d[nm].strip() == '' and any(parse_spec(specs[j])[2] == 's' for j in pos))
+                    if not ok: bad = (nm, d.get(nm, '<not set>'), 'absent: %s' % ('left as %r' % (keep,) if keep is not None else 'not set'))
+                else:
+                    ok = nm in d and any(check_field(expected_readback(specs[j], v, None), d[nm], specs[j]) for j in pos)
+                    if not ok: bad = (nm, d.get(nm, '<not set>'), 'read-back of %r' % (v,))
+                if bad: break
+            if bad:
+                what = 'written-value-not-delivered' if variable.get(bad[0]) is not None else 'absent-value-delivered'
+                fails.append(('file-level:read_value_line:%s' % what, {'record': rec, 'case': k, 'name': bad[0], 'dictionary': which},
+                              repr(bad[1]), bad[2]))
+                break
+    if res.get('rest') not in ('', None):
+        fails.append(('file-level:value-line:extra-text-in-file', {}, repr(res['rest'][:80]), 'end of file after the records'))
     return fails
 
 
@@ -333,9 +496,9 @@ def run_file_jobs(repo, order, files):
 
 
 def file_sweep(ctx, thorough=False):
-    """write_values -> real file -> read_values through the library's parser classes"""
+    """write_values -> real file -> read_values (and write_value_line -> read_value_line) through the library's parser classes"""
     tables = {t: tab for t, tab, rf in load_tables()}
-    dist = {'files': 0, 'records': 0, 'non_ascii_records': 0, 'loud_non_ascii': 0, 'processes': 0}
+    dist = {'files': 0, 'records': 0, 'non_ascii_records': 0, 'loud_non_ascii': 0, 'value_lines': 0, 'value_lines_with_zero': 0, 'processes': 0}
     n = 0
     for order in TABLE_ORDERS:
         files, meta = [], []
@@ -346,6 +509,8 @@ def file_sweep(ctx, thorough=False):
             for rec, vals, kind in cases:
                 if kind in ('neutral', 'mixed'): continue
                 files.append({'table': t, 'cases': [(rec, vals)]}); meta.append(kind)
+            vl = value_line_cases(tables[t], ctx.rng, thorough)
+            files.append({'table': t, 'vl': [(rec, var, pre) for rec, var, pre, kind in vl]}); meta.append('value-lines')
         try:
             results = run_file_jobs(ctx.repo, order, files)
         except Exception as e:
@@ -354,22 +519,30 @@ def file_sweep(ctx, thorough=False):
         dist['processes'] += 1
         for f, kind, res in zip(files, meta, results):
             dist['files'] += 1
-            for rec, vals in f['cases']:
-                n += 1; dist['records'] += 1
-                if kind != 'ascii-multi-record': dist['non_ascii_records'] += 1
-                ctx.count(('file', tuple(order), f['table'], rec, kind, repr(vals)), nontrivial=True)
-            if kind != 'ascii-multi-record' and not res.get('ok'): dist['loud_non_ascii'] += 1
-            if n % 97 == 0: ctx.sample({'file_table': f['table'], 'kind': kind, 'records': [c[0] for c in f['cases']][:5]})
+            for c in f.get('cases', []) + f.get('vl', []):
+                n += 1
+                if kind == 'value-lines':
+                    dist['value_lines'] += 1
+                    if any(not isinstance(v, str) and v == 0 for v in c[1].values()): dist['value_lines_with_zero'] += 1
+                else:
+                    dist['records'] += 1
+                    if kind != 'ascii-multi-record': dist['non_ascii_records'] += 1
+                ctx.count(('file', tuple(order), f['table'], c[0], kind, repr(c[1])), nontrivial=True)
+            if kind not in ('ascii-multi-record', 'value-lines') and not res.get('ok'): dist['loud_non_ascii'] += 1
+            if n % 97 == 0: ctx.sample({'file_table': f['table'], 'kind': kind, 'records': [c[0] for c in (f.get('cases') or f.get('vl'))][:5]})
             for key, where, obs, req in eval_file(tables, f, res):
-                small = f if len(f['cases']) <= 3 else {'table': f['table'], 'cases': [f['cases'][where['case']]] if 'case' in where else f['cases'][:3]}
-                ctx.failure('file-roundtrip', key, dict(where, file=small, order=order, kind=kind), obs, req)
+                lst = 'vl' if 'vl' in f else 'cases'
+                small = f if len(f[lst]) <= 3 else {'table': f['table'], lst: [f[lst][where['case']]] if 'case' in where else f[lst][:3]}
+                ctx.failure('file-roundtrip', key, dict({kk: vv for kk, vv in where.items() if kk != 'case'}, case=0 if 'case' in where else None, file=small, order=order, kind=kind), obs, req)
     ctx.oracle_cases('file-roundtrip', n, **dist)
     return n
 
 
 def file_replay(ctx, inp):
     tables = {t: tab for t, tab, rf in load_tables()}
-    f = {'table': inp['file']['table'], 'cases': [(c[0], c[1]) for c in inp['file']['cases']]}
+    f = {'table': inp['file']['table']}
+    if 'vl' in inp['file']: f['vl'] = [(c[0], c[1], c[2]) for c in inp['file']['vl']]
+    else: f['cases'] = [(c[0], c[1]) for c in inp['file']['cases']]
     res = run_file_jobs(ctx.repo, inp.get('order') or TABLE_ORDERS[0], [f])[0]
     print('replay(file): %r -> %r' % (f, res))
     return bool(eval_file(tables, f, res))
